@@ -22,6 +22,8 @@ SHAPES = {
     "dd": ("tsd", "int", ("tsd", "int", ("ts",))),
     "bb": ("tsb", [("q", ("tsb", [("b", ("ts",)), ("a", ("ts",))])), ("l", ("ts",))]),
     "bl": ("tsb", [("g", ("tsl", 2, ("ts",))), ("l", ("ts",))]),
+    "tss32": ("tss",),
+    "tsd32": ("tsd", "int", ("ts",)),
 }
 KIND = {"ts": 0, "tss": 1, "tsd": 2, "tsl": 3, "tsw": 4, "tsb": 5}
 
@@ -42,6 +44,9 @@ class Node:
         elif self.kind == "tsw":
             self.val = []
             self.count = 0
+            self.ever = False          # pushed at least once (clearing does not invalidate)
+            self.evicted = {}          # cycle -> value that fell out of the window in that cycle
+            self.cleared_at = set()    # cycles in which the window was cleared
         elif self.kind == "tsd":
             self.children = {}
             self.added, self.removed, self.modk, self.dt = set(), set(), set(), NEVER
@@ -108,8 +113,16 @@ class Node:
             self.touch(t)
             return True
         if k == "tsw":
+            if op[0] == "c":
+                self.val, self.count = [], 0
+                self.cleared_at.add(t)
+                self.touch(t)
+                return True
             self.val.append(int(op[1:]))
             self.count += 1
+            self.ever = True
+            if len(self.val) > self.shape[1]:
+                self.evicted[t] = self.val[0]
             self.val = self.val[-self.shape[1]:]
             self.touch(t)
             return True
@@ -179,7 +192,7 @@ class Node:
         if k in ("tss", "tsd"):
             return self.lmt != NEVER
         if k == "tsw":
-            return self.count >= 1
+            return self.ever
         return any(c.valid() for c in self.children)
 
     def all_valid(self):
